@@ -57,9 +57,39 @@ def tla_record(d):
 TAG = format(os.getpid() % 46656, "x")      # keeps the /dev/shm names of concurrent check runs apart
 
 
+class DriverAbort(Exception):
+    """The driver process died while executing the code under test (panic / abort / signal): data."""
+
+    def __init__(self, args, rc, stderr):
+        super().__init__(f"drv-service {' '.join(map(str, args))} exited {rc}")
+        self.args_, self.rc, self.stderr = [str(a) for a in args], rc, stderr
+
+
 def drv(args, seed, timeout=1500):
-    _, so, _ = vp.run_driver("drv-service", list(args) + ["--tag", TAG], timeout=timeout, env={"VERIF_SEED": seed})
+    full = list(args) + ["--tag", TAG]
+    rc, so, se = vp.run_driver("drv-service", full, timeout=timeout, env={"VERIF_SEED": seed, "RUST_BACKTRACE": "0"},
+                               ok_codes=None)
+    if rc == 2:
+        raise vp.ToolError(f"driver usage error: {' '.join(map(str, full))}\n{se[-2000:]}")
+    if rc != 0:
+        raise DriverAbort(full, rc, se[-3000:])
     return vp.last_json_line(so)
+
+
+def guarded(fn, what):
+    """Runs one part of the check; a dying driver becomes a violation, not a tool error."""
+    def wrapper(*a):
+        try:
+            return fn(*a)
+        except DriverAbort as e:
+            mode, pat = e.args_[0], (e.args_[e.args_.index("--pat") + 1] if "--pat" in e.args_ else "?")
+            return [("violation", vp.Violation(
+                f"{pat}/{mode}: the process executing the service operations died (exit {e.rc}) - a call did "
+                f"not terminate with a service or a documented error: {e.stderr.strip().splitlines()[-1:] }",
+                replay={"kind": "abort", "cmd": "harness/target/debug/drv-service " + " ".join(e.args_),
+                        "exit": e.rc, "stderr": e.stderr},
+                signature=f"abort:{mode}:{pat}"))]
+    return wrapper
 
 
 def lifecycle_instance(ctx, name, threads, maxops, budget, hasres, ooc, wbu=True, lol=True, rii=True, live=False):
@@ -140,15 +170,121 @@ def part_abs_model(ctx):
     return out
 
 
+import re
+
+_re_sys = re.compile(r'^\d+\s+(\w+)\((.*)\)\s+=\s+(-?\d+)')
+
+
+def extract_step_order(ctx, pat):
+    """Parameter extraction (DESIGN.md 3.3): the order of the resource-creating / removing system calls of
+    one create, one open and the two drops of the current build, read with strace and mapped to the
+    abstract steps of ServiceLifecycle.tla by path suffix."""
+    if shutil.which("strace") is None:
+        return None
+    log = ctx.path("order", f"steps-{pat}.strace")
+    exe = os.path.join(vp.TARGET_BIN, "drv-service")
+    import subprocess
+    r = subprocess.run(["strace", "-f", "-y", "-s", "40", "-o", log, "-e",
+                        "trace=openat,open,creat,write,pwrite64,fchmod,fchmodat,chmod,unlink,unlinkat,ftruncate",
+                        exe, "steps", "--pat", pat, "--root", ctx.path("dom", "x")[:-2], "--tag", TAG],
+                       stdout=subprocess.PIPE, stderr=subprocess.PIPE, text=True, timeout=600,
+                       env=dict(os.environ, IOX2_LOG_LEVEL="fatal"))
+    if r.returncode != 0 or '"results":["Ok","Ok"]' not in r.stdout.replace(" ", ""):
+        return None
+    kinds = [(".service_tag", "tag"), (".service", "static"), (".dynamic", "dyn"), (".blackboard_mgmt", "res"),
+             (".blackboard_data", "res"), (".type_definition", "res")]
+    phase, steps = "setup", {"create": [], "open": [], "opener-drop": [], "teardown": []}
+    nxt = {"begin": "create", "created": "open", "opened": "opener-drop", "opener-dropped": "teardown",
+           "creator-dropped": "done"}
+    for line in open(log, errors="replace"):
+        m = _re_sys.match(line)
+        if not m:
+            continue
+        call, args, ret = m.group(1), m.group(2), int(m.group(3))
+        if call == "write" and "C06-MARK" in args:
+            mk = args.split("C06-MARK ")[1].split("\\n")[0].strip('" ')
+            phase = nxt.get(mk, phase)
+            continue
+        if ret < 0 or phase not in steps:
+            continue
+        obj = next((k for suf, k in kinds if (suf + '"') in args or (suf + ">") in args), None)
+        if obj is None:
+            continue
+        if call in ("openat", "open", "creat"):
+            ev = f"{obj}_create" if "O_CREAT" in args else f"{obj}_open"
+        elif call in ("write", "pwrite64"):
+            if args.rstrip().endswith(", 0"):
+                continue
+            ev = f"{obj}_write"
+        elif call in ("fchmod", "fchmodat", "chmod"):
+            mode = args.rsplit(",", 1)[1].strip()
+            ev = f"{obj}_chmod_{mode}"
+        elif call in ("unlink", "unlinkat"):
+            ev = f"{obj}_remove"
+        else:
+            continue
+        if not steps[phase] or steps[phase][-1] != ev:
+            steps[phase].append(ev)
+    return steps
+
+
+def order_parameters(ctx, steps, hasres):
+    """Maps the extracted order to the structure parameters of the model; structural surprises are drift."""
+    drift = []
+    c = steps["create"]
+
+    def pos(seq, ev):
+        return seq.index(ev) if ev in seq else None
+    w, u = pos(c, "static_write"), pos(c, "static_chmod_0400")
+    if pos(c, "static_create") is None or w is None or u is None:
+        drift.append(f"static config creation steps not recognised: {c}")
+        wbu = True
+    else:
+        wbu = w < u
+    dc = pos(c, "dyn_create")
+    if dc is None or (u is not None and dc < u):
+        drift.append(f"dynamic config is not created after the static config was unlocked: {c}")
+    if hasres and (pos(c, "res_create") is None or (dc is not None and pos(c, "res_create") > dc)):
+        drift.append(f"resources are not created before the dynamic config: {c}")
+    o = [e for e in steps["open"] if e in ("tag_create", "res_open", "dyn_open")]
+    if "tag_create" in o and "dyn_open" in o and o.index("tag_create") > len(o) - 1 - o[::-1].index("dyn_open"):
+        drift.append(f"open: service tag after the dynamic config: {steps['open']}")
+    t = [e for e in steps["teardown"] if e.endswith("_remove")]
+    if not t or t[-1] != "static_remove":
+        drift.append(f"teardown does not remove the static config last: {t}")
+    return {"wbu": wbu}, drift
+
+
 def part_lifecycle(ctx, name, threads, maxops, budget, hasres, ooc, live):
-    d = lifecycle_instance(ctx, name, threads, maxops, budget, hasres, ooc, live=live)
+    pat = "bb" if hasres else "ev"
+    steps = extract_step_order(ctx, pat)
+    params, drift, out0 = {}, [], []
+    if steps is None:
+        out0.append(("note", f"step order of the current build could not be extracted for {pat} (strace unavailable "
+                             "or the run failed): the lifecycle model is checked with the order read from the source"))
+    else:
+        params, drift = order_parameters(ctx, steps, hasres)
+        out0.append(("order", (pat, steps, params)))
+        for dmsg in drift:
+            print(f"DRIFT: {pat}: {dmsg}")
+            out0.append(("note", f"DRIFT {pat}: {dmsg}"))
+    d = lifecycle_instance(ctx, name, threads, maxops, budget, hasres, ooc, live=live, **params)
     res = vp.tlc(d, name, workers=4 if ctx.quick else 8, timeout=3000, libs=["service"])
-    label = f"ServiceLifecycle[{threads} nodes x {maxops} calls, budget {budget}, resources={hasres}, ooc={ooc}]"
+    label = (f"ServiceLifecycle[{threads} nodes x {maxops} calls, budget {budget}, resources={hasres}, ooc={ooc}"
+             + (f", extracted {params}" if params else "") + "]")
     if res.timed_out:
         raise vp.ToolError(f"TLC timed out on {name}")
+    if res.violated and params and not params.get("wbu", True):
+        # V2: the model instantiated with the order EXTRACTED from the current build is refuted
+        return out0 + [("tlc", (label, res, True)), ("violation", vp.Violation(
+            f"{pat}: the static service config is unlocked before its content is written (system-call order of "
+            f"the current build: {steps['create']}); TLC refutes {res.violated} for the lifecycle model with this order",
+            replay={"kind": "model", "pat": pat, "extracted_order": steps, "parameters": params,
+                    "invariant": res.violated, "counterexample": cex_summary(res)},
+            signature=f"model:unlock-before-write:{res.violated}"))]
     if res.violated:
-        # The structure of the model is fixed by reading the code, not extracted: a refutation of the
-        # unmutated instance is a defect of the model (design check), not a verdict about /repo.
+        # The rest of the structure of the model is fixed by reading the code, not extracted: a refutation
+        # of the unmutated instance is a defect of the model (design check), not a verdict about /repo.
         raise vp.ToolError(f"ServiceLifecycle instance {name} violates {res.violated}:\n"
                            + json.dumps(cex_summary(res), indent=1)[-5000:])
     if not res.ok:
@@ -156,7 +292,7 @@ def part_lifecycle(ctx, name, threads, maxops, budget, hasres, ooc, live):
     need = ["CAvail", "CLock", "CUnlock", "CDyn", "CReg", "CFin", "OAvail", "ODyn", "ORegister",
             "DDereg", "DDyn", "DStatic", "Return"]
     vp.check_action_coverage(res, need, name)
-    return [("tlc", (label, res, True))]
+    return out0 + [("tlc", (label, res, True))]
 
 
 def part_must_fail(ctx, name, kw):
@@ -296,12 +432,17 @@ def part_seq(ctx):
     return out
 
 
-def part_conc(ctx, procs):
-    mode = "procs" if procs else "conc"
+def part_conc(ctx, procs, slow=False):
+    """Free-running histories: threads, child processes, or child processes one of which (the only
+    creator) runs in slow motion - strace injects a delay before and after each of its file / shm
+    system calls, so that it is paused after every step of the protocol while its peers keep opening."""
+    mode = "slow" if slow else ("procs" if procs else "conc")
+    if slow and shutil.which("strace") is None:
+        return [("note", "strace not available: slow-motion multi-process histories skipped")]
     if ctx.quick:
-        runs, iters, threads = (3, 90, "3,2,4") if not procs else (2, 90, "3,2")
+        runs, iters, threads = (3, 90, "3,2,4") if not procs else ((2, 90, "3,2") if not slow else (1, 300, "3"))
     else:
-        runs, iters, threads = (12, 250, "3,2,4,3") if not procs else (8, 250, "3,2,4")
+        runs, iters, threads = (12, 250, "3,2,4,3") if not procs else ((8, 250, "3,2,4") if not slow else (6, 500, "3,4"))
 
     def one(pat):
         t = ctx.path("traces", f"{mode}-{pat}.ndjson")
@@ -309,8 +450,13 @@ def part_conc(ctx, procs):
                 "--threads", threads, "--out", t]
         if procs:
             args.append("--procs")
+        if slow:
+            args += ["--slow", 1]
         s = drv(args, ctx.seed)
-        missing = [k for k in ["create:Ok", "open:Ok", "drop:Ok"] if s["results"].get(k, 0) == 0]
+        res_ = s["results"]
+        missing = [k for k in ["open:Ok", "drop:Ok"] if res_.get(k, 0) == 0 and not slow]
+        if res_.get("create:Ok", 0) + res_.get("ooc:Ok", 0) == 0:
+            missing.append("create:Ok|ooc:Ok")
         if missing:
             raise vp.ToolError(f"vacuous concurrent histories for {pat}/{mode}: never observed {missing}")
         return t, s
@@ -329,6 +475,45 @@ def part_conc(ctx, procs):
             out.append(("note", f"{s['pat']}/{mode}: {s['panics']} worker(s) panicked or exited abnormally"))
     runs_ = vp.split_runs(recs)
     out.append(("sample", {"mode": mode, "pattern": runs_[0][0]["pat"], "history": short_history(runs_[0], 40)}))
+    return out
+
+
+def part_sched(ctx):
+    """Deterministic one-preemption interleavings of create / open / open_or_create vs the last drop in
+    one process (scheduler of vlib, every instrumented atomic access is a yield point)."""
+    if ctx.quick:
+        pats = [PATS[ctx.seed % len(PATS)]]
+        extra = ["--stride", 3]
+        scen = ["lastdrop_vs_open", "create_vs_open"]
+    else:
+        pats = PATS
+        extra = ["--stride", 2]
+        scen = [None]
+
+    def one(job):
+        pat, sc = job
+        t = ctx.path("traces", f"sched-{pat}-{sc or 'all'}.ndjson")
+        args = ["sched", "--pat", pat, "--root", ctx.path("dom", "x")[:-2], "--out", t] + extra
+        if sc:
+            args += ["--scenario", sc]
+        return t, drv(args, ctx.seed, timeout=3000)
+
+    with cf.ThreadPoolExecutor(max_workers=4) as ex:
+        done = list(ex.map(one, [(p, sc) for p in pats for sc in scen]))
+    allt = ctx.path("traces", "sched-all.ndjson")
+    with open(allt, "w") as f:
+        for t, _ in done:
+            f.write(open(t).read())
+    out, recs = validate_trace(ctx, f"scheduler, {'/'.join(pats)}", allt, "sched")
+    summs = []
+    for _, s in done:
+        summs.append({"pat": s["pat"], "calls": s["calls"], "results": s["results"]})
+        if s["executions"] < 10:
+            raise vp.ToolError(f"vacuous scheduler enumeration: {s}")
+        if s["anomalies"]:
+            out.append(("note", f"{s['pat']}/sched: {s['anomalies']} execution(s) panicked or did not complete"))
+    out.append(("calls", ("sched", summs)))
+    out.append(("schedules", sum(s["executions"] for _, s in done)))
     return out
 
 
@@ -372,16 +557,20 @@ def run(ctx):
         "ServiceLifecycle: steps of builder/mod.rs and ServiceState::drop as read at the pinned revision, system "
         "calls atomic, time abstracted to a retry budget, no crashes",
         "isolated domains (own global.prefix, root path and default QoS values) under the work directory",
+        "scheduler mode: one preemption per execution, yield points = instrumented atomic accesses; a thread "
+        "waiting for a paused peer gives up after a short creation timeout (a justified transient error)",
     ]
     root = ctx.path("dom", "x")[:-2]
     dflts = {p: drv(["defaults", "--pat", p, "--root", os.path.join(root, "dflt")], ctx.seed) for p in PATS}
 
     jobs = []
     with cf.ThreadPoolExecutor(max_workers=5 if quick else 6) as ex:
-        jobs.append(ex.submit(part_seq, ctx))
-        jobs.append(ex.submit(part_conc, ctx, False))
-        jobs.append(ex.submit(part_conc, ctx, True))
-        jobs.append(ex.submit(part_matrix, ctx, dflts))
+        jobs.append(ex.submit(guarded(part_seq, "seq"), ctx))
+        jobs.append(ex.submit(guarded(part_conc, "conc"), ctx, False))
+        jobs.append(ex.submit(guarded(part_conc, "procs"), ctx, True))
+        jobs.append(ex.submit(guarded(part_conc, "slow"), ctx, True, True))
+        jobs.append(ex.submit(guarded(part_sched, "sched"), ctx))
+        jobs.append(ex.submit(guarded(part_matrix, "matrix"), ctx, dflts))
         jobs.append(ex.submit(part_abs_model, ctx))
         if quick:
             jobs.append(ex.submit(part_lifecycle, ctx, "LC_2x2", 2, 2, 1, False, True, False))
@@ -423,6 +612,11 @@ def run(ctx):
                 calls += s["calls"]
                 for k, v in s["results"].items():
                     per_result[f"{s['pat']}/{mode}/{k}"] = per_result.get(f"{s['pat']}/{mode}/{k}", 0) + v
+        elif kind == "order":
+            pat, steps, params = payload
+            ctx.coverage.setdefault("extracted_step_order", {})[pat] = {"steps": steps, "parameters": params}
+        elif kind == "schedules":
+            ctx.coverage["scheduler_executions"] = payload
         elif kind == "mustfail":
             name, res = payload
             vp.record_tlc(ctx, f"must-fail {name}", res, count=False)
